@@ -16,10 +16,10 @@ Import ListNotations.
 (* 0. the term encoding of pointer-shaped values *)
 
 Lemma tenc_struct fs : tenc (GStructPtr fs) = option_map (fun l => TPair (struct_ntag (length fs)) (tlistn l)) (tencs fs).
-Proof. simpl. f_equal. all: induction fs as [|a r IH]; simpl; [reflexivity|]; rewrite IH; reflexivity. Qed.
+Proof. simpl. f_equal. all: induction fs as [|a r IH]; simpl; [reflexivity|]; rewrite IH; unfold tslot; reflexivity. Qed.
 
 Lemma tenc_slice n es : tenc (GSlice n es) = option_map (fun l => TPair (slice_ntag (length es)) (tlistn l)) (tencs es).
-Proof. simpl. f_equal. all: induction es as [|a r IH]; simpl; [reflexivity|]; rewrite IH; reflexivity. Qed.
+Proof. simpl. f_equal. all: induction es as [|a r IH]; simpl; [reflexivity|]; rewrite IH; unfold tslot; reflexivity. Qed.
 
 Lemma tenc_ptr k z : tenc (GPtr (GScalar k z)) =
   if (z <? 0)%Z then None
@@ -34,7 +34,7 @@ Arguments tenc : simpl never.
 Lemma tencs_length l ts : tencs l = Some ts -> length ts = length l.
 Proof.
   revert ts. induction l as [|a r IH]; simpl; intros ts H; [inversion H; reflexivity|].
-  destruct (tenc a); [|discriminate]. destruct (tencs r) as [ts'|]; [|discriminate].
+  destruct (tslot a); [|discriminate]. destruct (tencs r) as [ts'|]; [|discriminate].
   inversion H; subst. simpl. f_equal. apply IH. reflexivity.
 Qed.
 
@@ -59,8 +59,15 @@ Proof.
   - apply N.eqb_neq. intros E. apply Nzz. apply Z2N.inj; assumption.
 Qed.
 
+Lemma scalar_atom_not_sym k z b n : scalar_atom k z = Some b -> atom_eqb (ASym n) b = false /\ atom_eqb b (ASym n) = false.
+Proof.
+  unfold scalar_atom. destruct (z <? 0)%Z; [discriminate|]. destruct (N.eqb k 0); [intros H; inversion H; split; reflexivity|].
+  destruct (N.eqb k 1); [intros H; inversion H; split; reflexivity|discriminate].
+Qed.
+
 (* the shapes of the universe *)
 Inductive shape : gval -> term -> Prop :=
+| ShINil : shape GNil (TAtom nil_iface_atom)
 | ShNil : shape GNilPtr TNil
 | ShVar i : shape (gvar i) (TVar i)
 | ShScalar k z a : scalar_atom k z = Some a -> cast_var (GPtr (GScalar k z)) = None ->
@@ -71,6 +78,7 @@ Inductive shape : gval -> term -> Prop :=
 Lemma tenc_shape x t : tenc x = Some t -> shape x t.
 Proof.
   intros H. destruct x as [|v| |fields|v|fields|n elems|n entries|k z]; try (cbv in H; discriminate).
+  - cbv in H. inversion H. constructor.
   - cbv in H. inversion H. constructor.
   - rewrite tenc_struct in H. destruct (tencs fields) as [tl|] eqn:E; simpl in H; [|discriminate].
     inversion H. constructor. exact E.
@@ -90,14 +98,22 @@ Qed.
 Lemma cast_var_gvar i : cast_var (gvar i) = Some i.
 Proof. unfold gvar, cast_var. rewrite N.eqb_refl, N2Z.id. reflexivity. Qed.
 
-(* values in the universe are not interface wrappers: a slot IS its value *)
+(* values in the universe are not interface wrappers *)
 Lemma tenc_unwrap x t : tenc x = Some t -> unwrap x = x.
 Proof. intros H. apply tenc_shape in H. destruct H; reflexivity. Qed.
+
+(* a slot is encoded as what reflecttools hands on from it (Value.Interface()) *)
+Lemma tslot_unwrap a t : tslot a = Some t -> tenc (unwrap a) = Some t.
+Proof.
+  unfold tslot. destruct a as [|v| |fields|v|fields|n elems|n entries|k z]; try (intros H; exact H).
+  destruct v; try discriminate; intros H; exact H.
+Qed.
 
 (* CastVar on an encodable value: exactly the variables *)
 Lemma cast_var_enc x t : tenc x = Some t -> forall i, cast_var x = Some i <-> t = TVar i.
 Proof.
-  intros H i. apply tenc_shape in H. destruct H as [|j|k z a Hk Hc Hl|fs tl E|n es tl E].
+  intros H i. apply tenc_shape in H. destruct H as [| |j|k z a Hk Hc Hl|fs tl E|n es tl E].
+  - split; discriminate.
   - split; discriminate.
   - rewrite cast_var_gvar. split; intros E; inversion E; reflexivity.
   - rewrite Hc. split; discriminate.
@@ -174,9 +190,9 @@ Proof.
             exists f2, occurs f2 i (tlistn tl) ts = Some b).
   { induction l as [|a r IHl]; intros tl Hl b0 Ha.
     - simpl in Hl. inversion Hl; subst. simpl in Ha. inversion Ha; subst. exists 1%nat. reflexivity.
-    - simpl in Hl. destruct (tenc a) as [ta|] eqn:Ea; [|discriminate].
+    - simpl in Hl. destruct (tslot a) as [ta|] eqn:Ea0; [|discriminate].
       destruct (tencs r) as [tr|] eqn:Er; [|discriminate]. inversion Hl; subst tl. clear Hl.
-      simpl in Ha. rewrite (tenc_unwrap a ta Ea) in Ha.
+      simpl in Ha. pose proof (tslot_unwrap a ta Ea0) as Ea. clear Ea0. set (ua := unwrap a) in *. clearbody ua. clear a. rename ua into a.
       destruct (ghascycle f i a s) as [[|]|] eqn:Eh; try discriminate.
       + inversion Ha; subst b0. destruct (IH i a s ta ts true Ea Hs Eh) as [f2 H2].
         exists (S f2). rewrite occurs_S. simpl. rewrite H2. reflexivity.
@@ -186,7 +202,8 @@ Proof.
         rewrite (occurs_mono f2 i ta ts false H2 (Nat.max f2 f3) ltac:(lia)).
         exact (occurs_mono f3 i (tlistn tr) ts b0 H3 (Nat.max f2 f3) ltac:(lia)). }
   pose proof (tenc_shape y' ty' Hy') as Hsh.
-  destruct Hsh as [|j|k z a Hk Hcv Hl|fs tl El|n es tl El].
+  destruct Hsh as [| |j|k z a Hk Hcv Hl|fs tl El|n es tl El].
+  - (* nil interface *) simpl in Hc. inversion Hc; subst. exists (S f). rewrite occurs_S, Hwt. reflexivity.
   - (* nil pointer *) simpl in Hc. inversion Hc; subst. exists (S f). rewrite occurs_S, Hwt. reflexivity.
   - rewrite cast_var_gvar in Hc. inversion Hc; subst b.
     exists (S f). rewrite occurs_S, Hwt. rewrite N.eqb_sym. reflexivity.
@@ -241,10 +258,11 @@ Proof.
     simpl in Hx, Hy. inversion Hx; inversion Hy; subst. simpl. exists ts, 1%nat. split; [exact Hs|reflexivity].
   - destruct ys as [|b ys]; [discriminate Hlen|]. simpl in Hlen. injection Hlen as Hlen.
     simpl in Hx, Hy.
-    destruct (tenc a) as [ta|] eqn:Ea; [|discriminate]. destruct (tencs xs) as [txr|] eqn:Exr; [|discriminate].
-    destruct (tenc b) as [tb|] eqn:Eb; [|discriminate]. destruct (tencs ys) as [tyr|] eqn:Eyr; [|discriminate].
+    destruct (tslot a) as [ta|] eqn:Ea0; [|discriminate]. destruct (tencs xs) as [txr|] eqn:Exr; [|discriminate].
+    destruct (tslot b) as [tb|] eqn:Eb0; [|discriminate]. destruct (tencs ys) as [tyr|] eqn:Eyr; [|discriminate].
     inversion Hx; inversion Hy; subst txs tys. clear Hx Hy.
-    simpl zip_loop. rewrite (tenc_unwrap a ta Ea), (tenc_unwrap b tb Eb).
+    pose proof (tslot_unwrap a ta Ea0) as Ea. pose proof (tslot_unwrap b tb Eb0) as Eb. clear Ea0 Eb0.
+    simpl zip_loop. set (ua := unwrap a) in *. set (ub := unwrap b) in *. clearbody ua ub. clear a b. rename ua into a. rename ub into b.
     change (gstep f a b (GROk s)) with (gunify f a b s).
     pose proof (IH a b s ta tb ts Ea Eb Hs) as H1.
     destruct (gunify f a b s) as [| |s1] eqn:Eg.
@@ -334,9 +352,20 @@ Proof.
     - destruct Hb as [ts' [f2 [Hs' H2]]]. exists ts', (S (Nat.max (S f) f2)). split; [exact Hs'|].
       rewrite Hstep by lia. rewrite Hm by lia. apply (exts_mono' f2); [exact H2|discriminate|lia]. }
   pose proof (tenc_shape x' tx' Hx') as Sx. pose proof (tenc_shape y' ty' Hy') as Sy.
-  destruct Sx as [|i|k z a Ha Hcv Hl|fs tl El|n es tl El].
+  destruct Sx as [| |i|k z a Ha Hcv Hl|fs tl El|n es tl El].
+  - (* x' nil interface *)
+    destruct Sy as [| |j|k' z' b Hb Hcv' Hl'|fs' tl' El'|n' es' tl' El'].
+    + simpl. exists ts, (S f). split; [exact Hs|]. rewrite Hstep by lia. reflexivity.
+    + simpl. exists (S f). rewrite Hstep by lia. reflexivity.
+    + rewrite cast_var_gvar. simpl cast_var.
+      apply (Hbind j GNil (TAtom nil_iface_atom) Hx'). intros F HF. rewrite unify_S, (walkt_fix _ _ _ _ Wx F HF), (walkt_fix _ _ _ _ Wy F HF). reflexivity.
+    + rewrite Hcv'. simpl. exists (S f). rewrite Hstep by lia. rewrite unify_S. cbn [walkt]. unfold nil_iface_atom.
+      rewrite (proj1 (scalar_atom_not_sym k' z' b 0 Hb)). reflexivity.
+    + simpl. exists (S f). rewrite Hstep by lia. reflexivity.
+    + simpl. exists (S f). rewrite Hstep by lia. reflexivity.
   - (* x' nil pointer *)
-    destruct Sy as [|j|k' z' b Hb Hcv' Hl'|fs' tl' El'|n' es' tl' El'].
+    destruct Sy as [| |j|k' z' b Hb Hcv' Hl'|fs' tl' El'|n' es' tl' El'].
+    + simpl. exists (S f). rewrite Hstep by lia. reflexivity.
     + simpl. exists ts, (S f). split; [exact Hs|]. rewrite Hstep by lia. reflexivity.
     + rewrite cast_var_gvar. simpl cast_var.
       apply (Hbind j GNilPtr TNil Hx'). intros F HF. rewrite unify_S, (walkt_fix _ _ _ _ Wx F HF), (walkt_fix _ _ _ _ Wy F HF). reflexivity.
@@ -345,7 +374,8 @@ Proof.
     + simpl. exists (S f). rewrite Hstep by lia. reflexivity.
   - (* x' a variable *)
     rewrite cast_var_gvar.
-    destruct Sy as [|j|k' z' b Hb Hcv' Hl'|fs' tl' El'|n' es' tl' El'].
+    destruct Sy as [| |j|k' z' b Hb Hcv' Hl'|fs' tl' El'|n' es' tl' El'].
+    + simpl cast_var. apply (Hbind i GNil (TAtom nil_iface_atom) Hy'). intros F HF. rewrite unify_S, (walkt_fix _ _ _ _ Wx F HF), (walkt_fix _ _ _ _ Wy F HF). reflexivity.
     + simpl cast_var. apply (Hbind i GNilPtr TNil Hy'). intros F HF. rewrite unify_S, (walkt_fix _ _ _ _ Wx F HF), (walkt_fix _ _ _ _ Wy F HF). reflexivity.
     + rewrite cast_var_gvar. destruct (N.eqb_spec i j) as [Eij|Nij].
       * subst j. exists ts, (S (S f)). split; [exact Hs|]. rewrite Hstep by lia.
@@ -357,7 +387,9 @@ Proof.
     + simpl cast_var. apply (Hbind i _ _ Hy'). intros F HF. rewrite unify_S, (walkt_fix _ _ _ _ Wx F HF), (walkt_fix _ _ _ _ Wy F HF). reflexivity.
   - (* x' pointer to a scalar *)
     rewrite Hcv.
-    destruct Sy as [|j|k' z' b Hb Hcv' Hl'|fs' tl' El'|n' es' tl' El'].
+    destruct Sy as [| |j|k' z' b Hb Hcv' Hl'|fs' tl' El'|n' es' tl' El'].
+    + simpl cast_var. rewrite Hl. cbn [orb gval_eqb]. exists (S f). rewrite Hstep by lia. rewrite unify_S. cbn [walkt]. unfold nil_iface_atom.
+      rewrite (proj2 (scalar_atom_not_sym k z a 0 Ha)). reflexivity.
     + simpl. exists (S f). rewrite Hstep by lia. reflexivity.
     + rewrite cast_var_gvar. apply (Hbind j _ (TAtom a) Hx'). intros F HF. rewrite unify_S, (walkt_fix _ _ _ _ Wx F HF), (walkt_fix _ _ _ _ Wy F HF). reflexivity.
     + rewrite Hcv', Hl. cbn [orb]. cbn [gval_eqb]. rewrite <- (scalar_atom_eqb k z a k' z' b Ha Hb).
@@ -368,7 +400,8 @@ Proof.
     + simpl cast_var. rewrite Hl. cbn [orb gval_eqb]. exists (S f). rewrite Hstep by lia. reflexivity.
   - (* x' pointer to a struct *)
     simpl cast_var.
-    destruct Sy as [|j|k' z' b Hb Hcv' Hl'|fs' tl' El'|n' es' tl' El'].
+    destruct Sy as [| |j|k' z' b Hb Hcv' Hl'|fs' tl' El'|n' es' tl' El'].
+    + simpl. exists (S f). rewrite Hstep by lia. reflexivity.
     + simpl. exists (S f). rewrite Hstep by lia. reflexivity.
     + rewrite cast_var_gvar. apply (Hbind j _ _ Hx'). intros F HF. rewrite unify_S, (walkt_fix _ _ _ _ Wx F HF), (walkt_fix _ _ _ _ Wy F HF). reflexivity.
     + rewrite Hcv', Hl'. simpl is_leaf. cbn [orb gval_eqb]. exists (S f). rewrite Hstep by lia. reflexivity.
@@ -392,7 +425,8 @@ Proof.
       unfold struct_ntag, slice_ntag. apply unify_tag_neq; [lia|lia].
   - (* x' slice *)
     simpl cast_var.
-    destruct Sy as [|j|k' z' b Hb Hcv' Hl'|fs' tl' El'|n' es' tl' El'].
+    destruct Sy as [| |j|k' z' b Hb Hcv' Hl'|fs' tl' El'|n' es' tl' El'].
+    + simpl. exists (S f). rewrite Hstep by lia. reflexivity.
     + simpl. exists (S f). rewrite Hstep by lia. reflexivity.
     + rewrite cast_var_gvar. apply (Hbind j _ _ Hx'). intros F HF. rewrite unify_S, (walkt_fix _ _ _ _ Wx F HF), (walkt_fix _ _ _ _ Wy F HF). reflexivity.
     + rewrite Hcv', Hl'. simpl is_leaf. cbn [orb gval_eqb]. exists (S f). rewrite Hstep by lia. reflexivity.
